@@ -52,6 +52,9 @@ def const(r, d):
 def target(r, subs):
     if subs and r.random() < 0.3:
         return p.Subscript(var("a"), r.choice([0, 1, N[0]]))
+    if r.random() < 0.12:   # a target that is an instance of a Variable SUBCLASS (same name)
+        from ..usertypes import LegacyMid
+        return LegacyMid(r.choice(T).name)
     return r.choice(T)
 
 
